@@ -76,6 +76,28 @@ def cycle_cases(max_len):
     return out
 
 
+def abstract_hop_cycle_cases(max_len):
+    """Cycles of fragments on an OBJECT type whose hops go through an interface-typed field, with and without the
+    `__typename` the library demands there (without: an error must come out, whatever the shape of the cycle), with
+    the fragments defined before and after the operation, and spread first from inside or outside the cycle."""
+    out = []
+    for n in range(1, max_len + 1):
+        for tn_in_hop in (False, True):
+            for order in ("fragments_first", "operation_first", "reversed_fragments_first"):
+                for entry in ("cycle", "outside"):
+                    frs = []
+                    for i in range(n):
+                        nxt = Spread("F%d" % ((i + 1) % n))
+                        frs.append(FragDef("F%d" % i, "O", [Field("id"), Field("next", ([TN()] if tn_in_hop else []) + [nxt])]))
+                    if entry == "outside":
+                        frs.append(FragDef("Entry", "O", [Field("id"), Spread("F0")]))
+                    op = Op("query", "Op", [Field("o", [Spread("Entry" if entry == "outside" else "F0")])])
+                    defs = {"fragments_first": frs + [op], "operation_first": [op] + frs, "reversed_fragments_first": frs[::-1] + [op]}[order]
+                    out.append({"family": "spread_cycle_abstract_hop", "desc": "len=%d typename_in_hop=%s order=%s entry=%s" % (n, tn_in_hop, order, entry),
+                                "schema": CYCLE_SCHEMA, "ext": "graphql", "query": gql.render_doc(Doc(defs))})
+    return out
+
+
 def input_cycle_cases():
     out = []
     kinds = ["%s", "%s!", "[%s]", "[%s!]!"]
@@ -228,6 +250,7 @@ def run(tier):
     rep = Report("C17", "fault_enumeration", tier)
     cases = []
     cases += cycle_cases(6)
+    cases += abstract_hop_cycle_cases(6)
     cases += input_cycle_cases()
     cases += nesting_cases([1, 2, 4, 8, 16, 24, 32, 40, 48, 56, 64] if tier == "quick" else list(range(1, 65)) + [96, 128])
     cases += odd_schema_cases()
@@ -237,7 +260,7 @@ def run(tier):
                    dict(DEFAULT_OPTS, deprecation="deny", mode="derive", struct_ident="Op", operation_name="Op")]
     more = []
     for c in cases:
-        if c["family"] in ("spread_cycle", "input_cycle", "odd_schema", "odd_json_schema", "no_implementors", "selection_nesting", "selection_nesting_abstract", "inline_nesting", "list_nesting") and "options" not in c:
+        if c["family"] in ("spread_cycle", "spread_cycle_abstract_hop", "input_cycle", "odd_schema", "odd_json_schema", "no_implementors", "selection_nesting", "selection_nesting_abstract", "inline_nesting", "list_nesting") and "options" not in c:
             for oi, o in enumerate(OPTION_SETS):
                 more.append(dict(c, options=o, desc=c["desc"] + " [option set %d]" % (oi + 1)))
     cases += more
